@@ -159,7 +159,7 @@ def main():
         "setup_cmd": "./setup.sh",
         "hooks": {
             "guard": "verif",
-            "enable": "no source hooks in /repo: harness packages are compiled into the module with `go build -overlay` (virtual paths /repo/internal/zzverif/..., /repo/internal/bcl/zzverif/...) and instrumented copies (sync shim for C10, iteration-order shim for C14) are generated from the working tree at check time",
+            "enable": "no source hooks in /repo: harness packages are compiled into the module with `go build -overlay` (virtual paths /repo/internal/zzverif/..., /repo/internal/bcl/zzverif/...) and instrumented copies (sync shim for C10, iteration-order shim for C14) are generated from the working tree at check time; two overlay-only export shims (harness/_inject: the LSP formatter for C19, the source-image dependency set of internal/source for C14 / C02 / C07) are added to existing packages the same way, never written into /repo",
             "baseline_off_cmd": "cd /repo && GOFLAGS=-mod=mod GOPROXY=off go test -vet=off -count=1 ./...",
             "source_commits": [],
             "add_only": True,
